@@ -205,9 +205,11 @@ def corr_evalH(run, cases, rotors, preps, poison=0.0):
                 continue
             ws = w.new_workspace()
             ws[:] = poison
-            v = w.evaluate(modes, quaternionic.array(R), workspace=ws, horner=True)
+            prev = complex(0.0, 0.0) if len(b.lines) % 2 == 0 else complex(7.5, -3.25)   # previous content of the caller's out cell
+            o = np.full((), prev, dtype=complex)
+            v = w.evaluate(modes, quaternionic.array(R), out=o, workspace=ws, horner=True)
             pw = h["cpowi"](np.complex128(p["z"][2]).conjugate(), s)
-            b.add(f"evalH {L} {w.mp_max} {s} {eM} {' '.join(fbits(x) for x in R)} {fbits(pw.real)} {fbits(pw.imag)} {fbits(0.0)} {fbits(0.0)} {fbits(poison)} " + cx_tokens(fa),
+            b.add(f"evalH {L} {w.mp_max} {s} {eM} {' '.join(fbits(x) for x in R)} {fbits(pw.real)} {fbits(pw.imag)} {fbits(prev.real)} {fbits(prev.imag)} {fbits(poison)} " + cx_tokens(fa),
                   arr_bits(np.array([v])), {"L": L, "P": P, "s": s, "ell_max_modes": eM, "R": R, "stratum": lab}, f"{lab}|s|={abs(s)}" if abs(s) >= 3 else lab)
     return b.flush()
 
